@@ -204,7 +204,7 @@ func partStoreStress(c *check.Ctx, a *acc) {
 		c.Inconc("build failed: " + err.Error())
 		return
 	}
-	cmd := exec.Command(bin, "-seed", fmt.Sprint(c.Seed), "-n", fmt.Sprint(c.Pick(300, 3000)))
+	cmd := exec.Command(bin, "-seed", fmt.Sprint(c.Seed), "-n", fmt.Sprint(c.Pick(300, 3000)), "-mass", fmt.Sprint(c.Pick(400000, 1500000)))
 	var out, errb bytes.Buffer
 	cmd.Stdout, cmd.Stderr = &out, &errb
 	done := make(chan error, 1)
@@ -223,6 +223,7 @@ func partStoreStress(c *check.Ctx, a *acc) {
 		Overlapping int      `json:"histories_with_overlapping_operations"`
 		Unknown     int      `json:"checker_timeouts"`
 		TypeChecks  int      `json:"type_registration_checks"`
+		MassNames   int      `json:"mass_registration_names"`
 		Violations  []string `json:"violations"`
 		Sample      []string `json:"sample_history"`
 	}
@@ -250,6 +251,43 @@ func partStoreStress(c *check.Ctx, a *acc) {
 	c.Coverage["store_per_key_operations_checked"] = r.KeyOps
 	c.Coverage["store_histories_with_overlapping_operations"] = r.Overlapping
 	c.Coverage["store_type_registration_checks"] = r.TypeChecks
-	a.add(r.Histories, r.Overlapping, "E6: 2-5 goroutines run Add/Update/Delete/List/DeleteByEntityID with unique payloads on 6 keys of the real component store (-race child); the recorded history is checked with porcupine key by key against a register-per-key model (List and DeleteByEntityID decomposed per key); concurrent registration of the same and of different type names is checked for idempotence and mutual resolution; a history is non-trivial when operations overlapped",
+	c.Coverage["store_distinct_type_names_in_one_store"] = r.MassNames
+	a.add(r.Histories, r.Overlapping, "E6: 2-5 goroutines run Add/Update/Delete/List/DeleteByEntityID with unique payloads on 6 keys of the real component store (-race child); the recorded history is checked with porcupine key by key against a register-per-key model (List and DeleteByEntityID decomposed per key); concurrent registration of the same and of different type names is checked for idempotence and mutual resolution; 400 000 (thorough: 1.5 million) distinct names of five shapes are registered in one store - every one gets its own id, resolves to it and back, and unregistered names do not resolve (enough names for any 32-bit digest of a name to collide); a history is non-trivial when operations overlapped",
 		map[string]any{"engine": "E6 component store", "first_operations": r.Sample})
+}
+
+// partEntityAddStorm: ownership rests on ids nobody else holds (C05, C10).
+func partEntityAddStorm(c *check.Ctx, a *acc) {
+	bin, err := c.WS.Build("lab", "plain")
+	if err != nil {
+		c.Inconc("build failed: " + err.Error())
+		return
+	}
+	n := c.Pick(4, 24)
+	var mu sync.Mutex
+	done, adds := 0, 0
+	parallel(n, 2, func(i int) {
+		p, err := c.WS.StartLab(bin, sut.LabOpts{Name: "addstorm"})
+		if err != nil {
+			c.Inconc(err.Error())
+			return
+		}
+		defer p.Kill()
+		st := e2.EntityAddStorm(p, 8+4*(i%3), 4000+2000*(i%2))
+		mu.Lock()
+		defer mu.Unlock()
+		if st.Inconclusive != "" {
+			c.Inconc(st.Inconclusive)
+		} else {
+			done++
+			adds += st.Adds
+		}
+		for _, f := range st.Findings {
+			c.Report(f)
+		}
+	})
+	c.Coverage["entity_add_storms"] = done
+	c.Coverage["entity_add_storm_ids_compared"] = adds
+	a.add(done, done, "E2 entity-add storms: 8-16 members of one session pipeline 4000-6000 entity adds each at the same time (add relays switched off by the connections' own flag, so the load is id allocation); every add answered exactly once, no entity id given to two participants, and a newcomer is handed every entity with the participant that was told it created it",
+		map[string]any{"engine": "E2 entity-add storm", "storms": done, "ids_compared": adds})
 }
